@@ -102,7 +102,7 @@ func (f *Frame) execInstr(in ssa.Instruction) {
 		elem := x.Type().Underlying().(*types.Slice).Elem()
 		heap := S.heapForSliceElem(elem)
 		o := ex.alloc(f.st, heap, x)
-		ex.writeObj(f.st, heap, o.addr, "((as const (Array Int "+f.sortOf(elem)+")) "+S.zero(elem)+")")
+		ex.writeObj(f.st, heap, o.addr, S.constArray(f.sortOf(elem), S.zero(elem)))
 		f.defReg(x, "(mk.Slice "+o.addr+" 0 "+ln.T+" "+cp.T+")", provSet{o: {}})
 		ex.assume(implies(f.pc, "(<= "+cp.T+" 72057594037927936)"))
 	case *ssa.MakeMap:
